@@ -36,7 +36,9 @@ def case(draw):
         opts['sd_thresh'] = draw(st.sampled_from([0.5, 0.2, 0.1, 0.05, 0.02, 1e-3, 1e-6]))
     elif sm == 'rilling':
         opts['rilling_thresh'] = draw(st.sampled_from([(0.05, 0.5, 0.05), (0.1, 0.8, 0.1), (0.02, 0.3, 0.05),
-                                                       (0.2, 0.9, 0.2), (0.01, 0.1, 0.01)]))
+                                                       (0.2, 0.9, 0.2), (0.01, 0.1, 0.01),
+                                                       # the local threshold below the global one is a valid (if unusual) choice
+                                                       (0.5, 0.05, 0.05), (0.3, 0.1, 0.2)]))
     if sm == 'fixed':
         opts['max_iters'] = draw(st.one_of(st.integers(1, 6), st.integers(1, 40)))
     else:
